@@ -108,12 +108,25 @@ def harness(tier, seed):
                                 hd = Hardness(max_fes=40, n_runs=2)
                                 h1, h2 = float(hd.evaluate(g)), float(hd.evaluate(y))
                                 h3 = float(Hardness(max_fes=40, n_runs=2).evaluate(y2[0]))
+                                # another instance of the same template (same name!) through the object that has just
+                                # evaluated g, against a fresh object
+                                x_o = np.array([rng.uniform(-1, 1) for _ in range(dim)])
+                                y_o = []
+                                dec.decode(x_o, y_o)
+                                ho_shared = float(hd.evaluate(y_o[0]))
+                                ho_fresh = float(Hardness(max_fes=40, n_runs=2).evaluate(y_o[0]))
+                                h1_again = float(hd.evaluate(g))
                                 eh = float(ErrorsAndHardness(space, max_fes=40, n_runs=2).evaluate(g))
-                            evals += 4
+                            evals += 7
                             if not (0.0 <= h1 <= 1.0 and 0.0 <= eh <= 1.0):
                                 viol.append(("hardness/range", info, f"Hardness={h1}, ErrorsAndHardness={eh}"))
-                            if not (h1 == h2 == h3):
-                                viol.append(("hardness/not-repeatable", info, f"three evaluations of the same instance: {h1}, {h2}, {h3}"))
+                            if not (h1 == h2 == h3 == h1_again):
+                                viol.append(("hardness/not-repeatable", info,
+                                             f"four evaluations of the same instance: {h1}, {h2}, {h3}, {h1_again}"))
+                            if ho_shared != ho_fresh:
+                                viol.append(("hardness/depends-on-earlier-evaluations", {**info, "x_other": x_o.tolist()[:60]},
+                                             f"another instance of the template: {ho_shared} after evaluating the first one, "
+                                             f"{ho_fresh} by a fresh objective"))
                         except RealCodeTimeout:
                             viol.append(("hardness/does-not-return", info, "no result within 120 s (unchanged tree: below a second)"))
                             hard_left = 0
